@@ -124,7 +124,8 @@ def discharge(obligations, timeout_ms=10000, procs=None, use_cvc5=True, cvc5_tim
         except Exception as e:
             texts.append(None)
             ob._build_error = f"{type(e).__name__}: {e}"
-    jobs = [(t, timeout_ms, True) for t in texts if t is not None]
+    # the un-carved twin of a known finding only has to stay unproved: a short budget is enough
+    jobs = [(t, 3000 if ob.name.endswith("@known") else timeout_ms, True) for ob, t in zip(obligations, texts) if t is not None]
     if jobs:
         with mp.get_context("fork").Pool(procs) as pool:
             results = pool.map(_solve_z3, jobs, chunksize=1)
